@@ -427,6 +427,15 @@ impl AdfParser<'_> {
     }
 }
 
+/// Verification hook (only compiled with `--cfg adf_obdd_verif`).
+#[cfg(adf_obdd_verif)]
+impl AdfParser<'_> {
+    /// The statement names of the parsed `ac` facts, in insertion order.
+    pub fn verif_formula_names(&self) -> Vec<String> {
+        self.formulaname.borrow().clone()
+    }
+}
+
 #[cfg(test)]
 mod test {
     use super::*;
